@@ -6,6 +6,7 @@ the rewrite rules).  Helper lemmas: PosLemmas, EditLemmas, SeqLemmas, RewriteLem
 import Verif.C16.PosLemmas
 import Verif.C16.Short
 import Verif.C16.SeqLemmas
+import Verif.C16.RewriteLemmas
 namespace Verif.C16
 variable {α : Type}
 
@@ -235,5 +236,267 @@ example : WFApart 6 ([⟨4, 5, [9]⟩, ⟨0, 2, [7, 7, 7]⟩, ⟨2, 3, []⟩] : 
   decide
 example : applySeq [1, 2, 3, 4, 5, 6] ([⟨4, 5, [9]⟩, ⟨0, 2, [7, 7, 7]⟩, ⟨2, 3, []⟩] : List (Edit Nat))
     = [7, 7, 7, 4, 9, 6] := by simp [applySeq, applyOne, shift]
+
+/-! ## (iv) behaviour of the rewrite rules (first batch) -/
+
+namespace Rw
+
+/-- S1002 (constant on the right): `other == true`, `other != false` ⇒ `other`;
+`other == false`, `other != true` ⇒ `!other` (a binary operand parenthesised), `!!` stripped. -/
+theorem s1002_preserves (g : Sig) (s : Sem) (ok : SemOk g s) (op : CmpOp) (val : Bool) (other e' : Expr)
+    (hty : tyOf g other = some .bool) (h : s1002 op val other = some e') (t : List Event) :
+    eval s e' t = eval s (.cmp op other (.lit (.bool val))) t := by
+  have wrap : ∀ t, eval s (.not (if isBinary other then .paren other else other)) t = eval s (.not other) t := by
+    intro t; split <;> simp only [eval]
+  have wrapTy : tyOf g (.not (if isBinary other then .paren other else other)) = some .bool := by
+    split <;> simp [tyOf, hty]
+  cases op with
+  | eq =>
+    cases val with
+    | true =>
+      simp only [s1002, if_true] at h; injection h with h; subst h
+      rw [eval_stripNots g s ok _ hty, eval_cmp_eq_true g s ok other hty]
+    | false =>
+      simp only [s1002, Bool.false_eq_true, if_false] at h; injection h with h; subst h
+      rw [eval_stripNots g s ok _ wrapTy, wrap, eval_cmp_eq_false g s ok other hty]
+  | ne =>
+    cases val with
+    | true =>
+      simp only [s1002, if_true] at h; injection h with h; subst h
+      rw [eval_stripNots g s ok _ wrapTy, wrap, eval_cmp_ne_true g s ok other hty]
+    | false =>
+      simp only [s1002, Bool.false_eq_true, if_false] at h; injection h with h; subst h
+      rw [eval_stripNots g s ok _ hty, eval_cmp_ne_false g s ok other hty]
+  | lt => simp [s1002] at h
+  | le => simp [s1002] at h
+  | gt => simp [s1002] at h
+  | ge => simp [s1002] at h
+
+/-- S1002 with the constant on the left (`true == other`): the constant has no effects, so
+the evaluation order does not matter. -/
+theorem s1002_preserves_left (g : Sig) (s : Sem) (ok : SemOk g s) (op : CmpOp) (val : Bool) (other e' : Expr)
+    (hty : tyOf g other = some .bool) (h : s1002 op val other = some e') (t : List Event) :
+    eval s e' t = eval s (.cmp op (.lit (.bool val)) other) t := by
+  rw [s1002_preserves g s ok op val other e' hty h t]
+  simp only [eval]
+  cases hev : eval s other t with
+  | mk r t1 =>
+    cases r with
+    | panic => rfl
+    | val v =>
+      have := ty_sound g s ok other .bool t v t1 hty hev
+      cases v with
+      | int n => simp [Val.ty] at this
+      | bool b => cases op <;> cases b <;> cases val <;> rfl
+
+/-- QF1001: every one of the four suggested fixes (De Morgan, recursively or not,
+simplified or not, parenthesised or not) evaluates like `!operand`: same result, same
+panics, same events in the same order. -/
+theorem qf1001_preserves (g : Sig) (s : Sem) (ok : SemOk g s) (recursive simp parens : Bool)
+    (operand e' : Expr) (hty : tyOf g (.not operand) = some .bool)
+    (h : qf1001 recursive simp parens operand = some e') (t : List Event) :
+    eval s e' t = eval s (.not operand) t := by
+  have hop : tyOf g (unparen operand) = some .bool := by rw [tyOf_unparen]; exact tyOf_not hty
+  have base : eval s (.not operand) t = eval s (.not (unparen operand)) t := by
+    simp only [eval, eval_unparen]
+  rw [base]
+  have fin : ∀ e, eval s (negDM recursive e) t = eval s (.not e) t →
+      tyOf g (negDM recursive e) = some .bool →
+      eval s (if parens then Expr.paren (if simp then simplify (negDM recursive e) else negDM recursive e)
+              else (if simp then simplify (negDM recursive e) else negDM recursive e)) t = eval s (.not e) t := by
+    intro e he hte
+    cases parens <;> cases simp <;>
+      simp only [if_true, if_false, Bool.false_eq_true, eval, eval_simplify g s ok _ _ hte] <;>
+      (try simp only [eval] at he) <;> exact he
+  unfold qf1001 at h
+  split at h
+  · rename_i a b heq; injection h with h; subst h; rw [heq] at hop ⊢
+    exact fin _ (eval_negDM g s ok recursive _ hop t) (tyOf_negDM g recursive _ hop)
+  · rename_i a b heq; injection h with h; subst h; rw [heq] at hop ⊢
+    exact fin _ (eval_negDM g s ok recursive _ hop t) (tyOf_negDM g recursive _ hop)
+  · rename_i op a b heq; injection h with h; subst h; rw [heq] at hop ⊢
+    exact fin _ (eval_negDM g s ok recursive _ hop t) (tyOf_negDM g recursive _ hop)
+  · exact absurd h (by simp)
+
+/-- QF1006: the lifted loop condition `NegateDeMorgan(cond)` is `!cond`. -/
+theorem qf1006_condition (g : Sig) (s : Sem) (ok : SemOk g s) (cond : Expr) (hty : tyOf g cond = some .bool)
+    (t : List Event) : eval s (negDM false cond) t = eval s (.not cond) t :=
+  eval_negDM g s ok false cond hty t
+
+/-- QF1007: `x := init; if cond { x = !init }` assigns what `x := cond` / `x := !cond` assigns,
+with the same panics and events. -/
+theorem qf1007_preserves (g : Sig) (s : Sem) (ok : SemOk g s) (init : Bool) (cond : Expr)
+    (hty : tyOf g cond = some .bool) (t : List Event) :
+    eval s (qf1007 init cond) t =
+      (match eval s cond t with
+       | (.val (.bool c), t1) => (.val (.bool (if c then !init else init)), t1)
+       | (.val (.int _), t1) => (.panic, t1)
+       | (.panic, t1) => (.panic, t1)) := by
+  unfold qf1007
+  cases hev : eval s cond t with
+  | mk r t1 =>
+    cases r with
+    | panic => cases init <;> simp [eval, hev]
+    | val v =>
+      have := ty_sound g s ok cond .bool t v t1 hty hev
+      cases v with
+      | int n => simp [Val.ty] at this
+      | bool c => cases init <;> cases c <;> simp [eval, hev, evalNot]
+
+/-- S1003's table: for every entry and every possible result `n ≥ -1` of Index…, the
+comparison is `n ≠ -1` (entry says Contains) or `n = -1` (entry says !Contains). -/
+theorem s1003_table_correct : ∀ e ∈ s1003tab, ∀ n : Int, -1 ≤ n →
+    cmpInt e.2.1 n e.1 = (if e.2.2 then decide (n ≠ -1) else decide (n = -1)) := by
+  intro e he n hn
+  simp only [s1003tab, List.mem_cons, List.not_mem_nil, or_false] at he
+  rcases he with rfl | rfl | rfl | rfl | rfl <;>
+    simp only [cmpInt, if_true, if_false, Bool.false_eq_true] <;> apply decide_eq_decide.2 <;> omega
+
+/-- S1003: `Index…(a, b) <op> c` ⇒ `Contains…(a, b)` / `!Contains…(a, b)`, given the
+specification of the two library functions (`n ≥ -1`, Contains ⇔ `n ≠ -1`). -/
+theorem s1003_preserves (s : Sem) (idx cont : Nat) (op : CmpOp) (c : Int) (a b e' : Expr)
+    (spec : ∀ x y, ∃ n : Int, s.p idx x y = .int n ∧ -1 ≤ n ∧ s.p cont x y = .bool (decide (n ≠ -1)))
+    (h : s1003 cont op c a b = some e') (t : List Event) :
+    eval s e' t = eval s (.cmp op (.prim idx a b) (.lit (.int c))) t := by
+  have hval : ∀ (res : Bool), (c, op, res) ∈ s1003tab → ∀ x y,
+      evalCmp op (s.p idx x y) (.int c) = .val (.bool (if res then (match s.p cont x y with | .bool q => q | _ => false)
+        else !(match s.p cont x y with | .bool q => q | _ => false))) := by
+    intro res hmem x y
+    obtain ⟨n, h1, h2, h3⟩ := spec x y
+    have := s1003_table_correct _ hmem n h2
+    rw [h1, h3]; simp only [evalCmp] at this ⊢
+    rw [this]; cases res <;> simp
+  unfold s1003 at h
+  split at h
+  · rename_i c' op' heq
+    have hm := List.mem_of_find?_eq_some heq
+    have hp := List.find?_some heq
+    simp only [Bool.and_eq_true, beq_iff_eq] at hp
+    obtain ⟨rfl, rfl⟩ := hp
+    injection h with h; subst h
+    simp only [eval]
+    cases eval s a t with
+    | mk ra t1 => cases ra with
+      | panic => rfl
+      | val va =>
+        simp only
+        cases eval s b t1 with
+        | mk rb t2 => cases rb with
+          | panic => rfl
+          | val vb =>
+            simp only [hval true hm va vb]
+            obtain ⟨n, _, _, h3⟩ := spec va vb
+            rw [h3]; simp
+  · rename_i c' op' heq
+    have hm := List.mem_of_find?_eq_some heq
+    have hp := List.find?_some heq
+    simp only [Bool.and_eq_true, beq_iff_eq] at hp
+    obtain ⟨rfl, rfl⟩ := hp
+    injection h with h; subst h
+    simp only [eval]
+    cases eval s a t with
+    | mk ra t1 => cases ra with
+      | panic => rfl
+      | val va =>
+        simp only
+        cases eval s b t1 with
+        | mk rb t2 => cases rb with
+          | panic => rfl
+          | val vb =>
+            simp only [hval false hm va vb]
+            obtain ⟨n, _, _, h3⟩ := spec va vb
+            rw [h3]; simp [evalNot]
+  · exact absurd h (by simp)
+
+/-- S1004: `bytes.Compare(a, b) == 0` ⇒ `bytes.Equal(a, b)`, `!= 0` ⇒ `!bytes.Equal(a, b)`. -/
+theorem s1004_preserves (s : Sem) (cmpP eqP : Nat) (op : CmpOp) (a b e' : Expr)
+    (spec : ∀ x y, ∃ n : Int, s.p cmpP x y = .int n ∧ s.p eqP x y = .bool (decide (n = 0)))
+    (h : s1004 eqP op a b = some e') (t : List Event) :
+    eval s e' t = eval s (.cmp op (.prim cmpP a b) (.lit (.int 0))) t := by
+  have core : ∀ (neg : Bool), eval s (if neg then .not (.prim eqP a b) else .prim eqP a b) t =
+      eval s (.cmp (if neg then .ne else .eq) (.prim cmpP a b) (.lit (.int 0))) t := by
+    intro neg
+    cases neg <;> simp only [if_true, if_false, Bool.false_eq_true, eval] <;>
+    (cases eval s a t with
+     | mk ra t1 => cases ra with
+       | panic => rfl
+       | val va =>
+         simp only
+         cases eval s b t1 with
+         | mk rb t2 => cases rb with
+           | panic => rfl
+           | val vb =>
+             obtain ⟨n, h1, h2⟩ := spec va vb
+             simp [h1, h2, evalCmp, cmpInt, evalNot])
+  cases op with
+  | eq => simp only [s1004] at h; injection h with h; subst h; exact core false
+  | ne => simp only [s1004] at h; injection h with h; subst h; exact core true
+  | lt => simp [s1004] at h
+  | le => simp [s1004] at h
+  | gt => simp [s1004] at h
+  | ge => simp [s1004] at h
+
+/-- QF1003 / QF1002: an if-else chain (or tagless switch) whose conditions compare one
+call-free expression `x` with lists of values takes the same branch, panics alike and
+produces the same events as the tagged switch that evaluates `x` once.  (The case values
+may have effects; the check is more conservative and rejects those.) -/
+theorem qf1003_preserves (s : Sem) (x : Expr) (ys : List Expr) (rest : List (List Expr))
+    (hx : callFree x = true) (hne : ∀ c ∈ ys :: rest, c ≠ []) (t : List Event) :
+    ifChain s x (ys :: rest) 0 t = tagSwitch s x (ys :: rest) t := by
+  have hxe : ∀ t, eval s x t = ((eval s x []).1, t) := callFree_trace s x hx
+  unfold tagSwitch
+  rw [hxe t]
+  cases hv : (eval s x []).1 with
+  | val v => exact ifChain_switch s x v hx hv _ hne 0 t
+  | panic => exact ifChain_panic s x hx hv ys rest (hne ys (by simp)) 0 t
+
+example : ifChain ⟨fun _ _ _ => none, fun _ _ _ => .int 0, fun _ => .int 2⟩ (.var 0)
+    [[.lit (.int 1)], [.lit (.int 2), .lit (.int 3)]] 0 [] = (some (some 1), []) := by decide
+
+/-- The rules of the first batch as one relation: `Rewrites e e'` holds when one of the
+modelled checks replaces `e` by `e'`. -/
+inductive Rewrites (s : Sem) : Expr → Expr → Prop
+  | s1002 (op val other e') : s1002 op val other = some e' →
+      Rewrites s (.cmp op other (.lit (.bool val))) e'
+  | s1002_left (op val other e') : s1002 op val other = some e' →
+      Rewrites s (.cmp op (.lit (.bool val)) other) e'
+  | qf1001 (r si pa operand e') : qf1001 r si pa operand = some e' → Rewrites s (.not operand) e'
+  | s1003 (idx cont op c a b e') :
+      (∀ x y, ∃ n : Int, s.p idx x y = .int n ∧ -1 ≤ n ∧ s.p cont x y = .bool (decide (n ≠ -1))) →
+      s1003 cont op c a b = some e' → Rewrites s (.cmp op (.prim idx a b) (.lit (.int c))) e'
+  | s1004 (cmpP eqP op a b e') :
+      (∀ x y, ∃ n : Int, s.p cmpP x y = .int n ∧ s.p eqP x y = .bool (decide (n = 0))) →
+      s1004 eqP op a b = some e' → Rewrites s (.cmp op (.prim cmpP a b) (.lit (.int 0))) e'
+  | simplify (e) : Rewrites s e (simplify e)
+
+/-- (iv) For ALL well-typed expressions (all operand instantiations, arbitrary stateful
+opaque functions, arbitrary environments and histories): a rewrite of the first batch
+does not change the result, the panics or the visible effects. -/
+theorem rewrite_preserves (g : Sig) (s : Sem) (ok : SemOk g s) (e e' : Expr) (τ : Ty)
+    (hty : tyOf g e = some τ) (h : Rewrites s e e') (t : List Event) : eval s e' t = eval s e t := by
+  cases h with
+  | s1002 op val other e' h =>
+    refine s1002_preserves g s ok op val other e' ?_ h t
+    cases op <;> simp [s1002] at h <;> (simp only [tyOf] at hty; split at hty <;> simp_all [Val.ty])
+  | s1002_left op val other e' h =>
+    refine s1002_preserves_left g s ok op val other e' ?_ h t
+    cases op <;> simp [s1002] at h <;> (simp only [tyOf] at hty; split at hty <;> simp_all [Val.ty])
+  | qf1001 r si pa operand e' h =>
+    have : tyOf g (.not operand) = some .bool := by
+      have := tyOf_not hty; simp [tyOf, this]
+    exact qf1001_preserves g s ok r si pa operand e' this h t
+  | s1003 idx cont op c a b e' spec h => exact s1003_preserves s idx cont op c a b e' spec h t
+  | s1004 cmpP eqP op a b e' spec h => exact s1004_preserves s cmpP eqP op a b e' spec h t
+  | simplify e => exact eval_simplify g s ok e τ hty t
+
+-- non-vacuity: `!(f(x) && y < 3)` with a stateful f, its De Morgan form, and S1002 on a comparison
+example : qf1001 false true true (.paren (.and (.call 0 (.var 0)) (.cmp .lt (.var 1) (.lit (.int 3))))) =
+    some (.paren (.or (.not (.call 0 (.var 0))) (.cmp .ge (.var 1) (.lit (.int 3))))) := by decide
+example : s1002 .eq false (.cmp .lt (.var 1) (.lit (.int 3))) =
+    some (.not (.paren (.cmp .lt (.var 1) (.lit (.int 3))))) := by decide
+example : tyOf ⟨fun _ => .int, fun _ => .int, fun _ => .bool, fun _ => .int, fun _ => .int, fun _ => .int⟩
+    (.not (.paren (.and (.call 0 (.var 0)) (.cmp .lt (.var 1) (.lit (.int 3)))))) = some .bool := by decide
+
+end Rw
 
 end Verif.C16
